@@ -224,11 +224,11 @@ ADDENDA = {
     "C14": " Also decided (R14-accept, rules of C19): the decoder's consistency checks accept what the encoder prints for legal positions - each castling right tested against its own king and rook home squares, one king per side.",
     "C07": " Also decided (R07-fork, rule of C08): Board.Fork initialises every field of the board and of its fresh head node from the original, the node's hash included, so a fork reports the same hashes.",
     "C11": " Also decided (R11-nested, defect F37): a leaf evaluator that starts a search of its own does not hand it the caller's table.",
-    "C01": " Also decided here (re-decided from C02/C06 because the generator and the legality filter rest on them): the castling-rights table CastlingRightsLost over all (From,To) classes, and the attack queries behind IsChecked/IsAttacked/IsAttackedBy/IsCheckMate together with the boards they read (rotated-view windows, slider rays, leaper and pawn tables, Attackboard dispatch: the C06 rules, for every square).",
+    "C01": " Also decided here (re-decided from C02/C06 because the generator and the legality filter rest on them): the castling-rights table CastlingRightsLost over all (From,To) classes, and the attack queries behind IsChecked/IsAttacked/IsAttackedBy/IsCheckMate together with the boards they read (rotated-view windows, slider rays, leaper and pawn tables, Attackboard dispatch: the C06 rules, for every square). R01-ep (rules of C02): the en-passant target of the successor is set by a jump and cleared by every other move, so the e.p. captures generated are the legal ones.",
     "C03": " Hand-back: PopMove is the exact inverse of PushMove, the game result included (R08-inverse re-decided; defect F23). The window clause reads, as corrected after defect F19: the child's bounds are negations of the parent's bounds translated by the inverse of the mate-distance increment, decided as the identity Negate(IncrementMateDistance(bound handed down)) = parent's bound on every abstract score region (R03-window). Also decided: the move loop is left early only on alpha >= beta or cancellation; no node returns on a cut-off before a move was tried or the mate/stalemate verdict produced; the score algebra of C09 including DecrementMateDistance (re-decided as R03-scores); MoveList.Next is empty-exact. Also decided (R03-handback, defect F35): the no-legal-move verdict, which AdjudicateNoLegalMoves writes into the board, is taken back by the search function itself on every path (at the root no take-back would do it).",
     "C04": " Also decided: every call of a halting Engine method in the command loop is preceded by the deactivation helper (a superseded search never gets a bestmove of its own; R16-supersede re-decided as R04-single); a go always halts what the engine still has registered before it launches. Also decided (rules of C16, re-decided under R04-single): a completion is tied to its search, cannot win the cleared flag (a late stop after a self-ended search would answer twice), is claimed and emitted by the command loop, under fresh ids. Also decided (R04-position, rules of C10): the game the engine answers for is the one the last position command describes - line committed only after all moves were applied and forgotten when one fails, reset on a non-continuation, token-boundary continuation test, every FEN field decoded, no move refused on account of the game result.",
     "C05": " Also decided: the shape of HasInsufficientMaterial (piece sets of both colours, case split 2/3/4 and thresholds, the bishops' square colours told by a colour-complex mask - R05-dead, which exposed defect F18); that a forked board carries clock, counters and shared past (R05-fork); that the per-hash gate of the re-count is sound (C07's delta rule re-decided as R05-hashgate). Also decided (R05-takeback, rule of C08): PopMove is the exact inverse of PushMove on the per-hash counters, the clock and the saved result, so a game with take-backs is adjudicated like the game without them.",
-    "C06": " IsCheckMate: 'not mate' is never decided for a side in check without consulting the legal moves.",
+    "C06": " IsCheckMate: 'not mate' is never decided for a side in check without consulting the legal moves. A 'not attacked' answer of an attack query rests on an empty intersection with the attackers (or an empty attacker set), not on a prefilter.",
     "C09": " Also decided: DecrementMateDistance and IncrementMateDistance are mutually inverse (R09-decr); the int8 mate distance never wraps around - the constructor maps every int8 into [-127,127], nothing else writes the field, and Negate/Increment/Decrement/MateDistance keep the range on every path (R09-range, defect F25). The order clauses are decided region-wise on |k| <= 126 and as constants for the neighbour pairs at the ends of the range, where the saturating increment collapses the order: listed as known finding F33.",
     "C10": " Also decided: the continuation test of the position arm compares the new line with the remembered one at a token boundary (R10-prefix, defect F20); a continuation must extend the remembered line by a move list (second obligation of R10-prefix, defect F31); Engine.Move's text match is exact on origin, destination and promotion (R19-move re-decided as R10-move). Also decided (R10-decode, rule of C14): fen.Decode hands every field of the text on to the position and values it returns, each from its own field. Also decided (R10-accept): no branch of Engine.Move is decided by Board.Result(), so a move list is applied also past a claimable draw.",
     "C08": " The result clause reads, as corrected after defect F23: a take-back restores the game result the board reported before the move, claimable draws included.",
